@@ -391,9 +391,11 @@ class Runner:
     def one(self, suite, k, form, enforce, op, user, case, flags=None, has_uid=True, verify=True):
         """one operation on one real key: model correspondence + property oracle"""
         ctx, w = self.ctx, self.w
+        # the switch that counts is the one on the key the operation is CALLED ON; its subkey objects carry the opposite value here,
+        # so that reading it from another component shows
         k._require_usage_flags = enforce
         for c in k.subkeys.values():
-            c._require_usage_flags = enforce
+            c._require_usage_flags = not enforce
         ids = [str(k.fingerprint)[-16:]] + list(k.subkeys)
         out, r = do_op(w, k, op, user, ids)
         desc = describe(w, k, form, enforce, self.tok)
